@@ -16,7 +16,8 @@ for id in "$@"; do
   echo "=== $id on $name"
   ./check "$id" --tier "${TIER:-quick}" > "$scr/$id.log" 2>&1
   rc=$?
-  grep -E 'VIOLATION|KNOWN-FINDING|INCONCLUSIVE|held on|^    ' "$scr/$id.log" | cut -c1-400 | head -8
+  grep -E '^(VIOLATION|KNOWN-FINDING|INCONCLUSIVE)|held on everything' "$scr/$id.log" | cut -c1-400 | head -6
+  grep -E -A1 '^VIOLATION' "$scr/$id.log" | grep -E '^    ' | cut -c1-300 | head -3
   echo "exit=$rc"
 done
 git -C /repo worktree remove --force "$scr/repo"
